@@ -43,12 +43,17 @@ def gen_demux_case(ctx):
     multi = not comb and rng.random() < 0.4
     if multi:
         argv += ["--times", str(rng.randint(2, 3))]
+    # some runs with worker processes and compressed outputs: every file must exist there too (an empty .gz is still a file)
+    mc = rng.random() < 0.25
+    ext = "fastq" + (rng.choice([".gz", ".gz", ".bz2", ".xz"]) if mc or rng.random() < 0.1 else "")
+    if ext != "fastq":
+        argv = [t.replace("ut1.fastq", "ut1." + ext).replace("ut2.fastq", "ut2." + ext) for t in argv]
     if comb:
-        argv += ["-o", "{dir}/dm-{name1}-{name2}.1.fastq", "-p", "{dir}/dm-{name1}-{name2}.2.fastq"]
+        argv += ["-o", "{dir}/dm-{name1}-{name2}.1." + ext, "-p", "{dir}/dm-{name1}-{name2}.2." + ext]
     else:
-        argv += ["-o", "{dir}/dm-{name}.1.fastq"]
+        argv += ["-o", "{dir}/dm-{name}.1." + ext]
         if paired:
-            argv += ["-p", "{dir}/dm-{name}.2.fastq"]
+            argv += ["-p", "{dir}/dm-{name}.2." + ext]
     r1, r2 = pipe.gen_reads(rng, rng.randint(3, 9), seqs[: len(names)], [seqs[2 - i] for i in range(len(names2))] or seqs[:1], paired)
     if multi and len(names) > 1:
         # reads in which two different adapters are removed in successive rounds (the LAST match names the file)
@@ -66,8 +71,12 @@ def gen_demux_case(ctx):
         sw = [rng.random() < 0.5 for _ in r1]
         r1, r2 = ([(a[0], b[1], b[2]) if w else a for a, b, w in zip(r1, r2, sw)],
                   [(b[0], a[1], a[2]) if w else b for a, b, w in zip(r1, r2, sw)])
-    return dict(argv=argv, paired=paired, reads1=r1, reads2=r2, with_qual=True, interleaved_in=False, demux_case=True,
-                names=names, names2=names2, comb=comb)
+    case = dict(argv=argv, paired=paired, reads1=r1, reads2=r2, with_qual=True, interleaved_in=False, demux_case=True,
+                names=names, names2=names2, comb=comb, ext=ext)
+    if mc:
+        case["cores"] = rng.choice([2, 3])
+        case["buffer_size"] = 400
+    return case
 
 
 def plain_variant(case):
@@ -99,7 +108,10 @@ def oracle(ctx, case, res, real):
     if not case.get("demux_case"):
         return
     inp = case_input(case)
+    if case.get("cores"):
+        inp = dict(inp, cores=case["cores"], buffer_size=case.get("buffer_size"))
     names, names2, comb = case["names"], case["names2"], case["comb"]
+    ext = case.get("ext", "fastq")
     discard = "--discard-untrimmed" in argv
     ut = "--untrimmed-output" in argv
     # files that must exist
@@ -110,21 +122,21 @@ def oracle(ctx, case, res, real):
             keys += [(None, None)] + [(None, b) for b in names2] + [(a, None) for a in names]
         for a, b in keys:
             for k in ("1", "2"):
-                exp_files.add(f"dm-{a or 'unknown'}-{b or 'unknown'}.{k}.fastq")
+                exp_files.add(f"dm-{a or 'unknown'}-{b or 'unknown'}.{k}.{ext}")
     else:
         for a in names:
-            exp_files.add(f"dm-{a}.1.fastq")
+            exp_files.add(f"dm-{a}.1.{ext}")
             if case["paired"]:
-                exp_files.add(f"dm-{a}.2.fastq")
+                exp_files.add(f"dm-{a}.2.{ext}")
         if not discard:
             if ut:
-                exp_files.add("ut1.fastq")
+                exp_files.add("ut1." + ext)
                 if case["paired"]:
-                    exp_files.add("ut2.fastq")
+                    exp_files.add("ut2." + ext)
             else:
-                exp_files.add("dm-unknown.1.fastq")
+                exp_files.add("dm-unknown.1." + ext)
                 if case["paired"]:
-                    exp_files.add("dm-unknown.2.fastq")
+                    exp_files.add("dm-unknown.2." + ext)
     got_files = set(real["files"])
     if got_files != exp_files:
         ctx.failures.append(Failure("C15/files-created", "the set of created files differs from one per adapter name (combination) plus unknown/untrimmed",
@@ -166,13 +178,13 @@ def oracle(ctx, case, res, real):
                     exp = []
                 else:
                     key = f"dm-{an if an != 'no_adapter' else 'unknown'}-{an2 if an2 != 'no_adapter' else 'unknown'}"
-                    exp = [key + ".1.fastq", key + ".2.fastq"]
+                    exp = [key + ".1." + ext, key + ".2." + ext]
             else:
                 sides = ("1", "2") if case["paired"] else ("1",)
                 if an == "no_adapter":
-                    exp = [] if discard else [f"ut{x}.fastq" for x in sides] if ut else [f"dm-unknown.{x}.fastq" for x in sides]
+                    exp = [] if discard else [f"ut{x}.{ext}" for x in sides] if ut else [f"dm-unknown.{x}.{ext}" for x in sides]
                 else:
-                    exp = [f"dm-{an}.{x}.fastq" for x in sides]
+                    exp = [f"dm-{an}.{x}.{ext}" for x in sides]
             if sorted(where.get(k, [])) != sorted(exp):
                 ctx.failures.append(Failure("C15/wrong-file", "read (pair) is not in the file named after the adapter of its last match on R1 "
                                             "(the pair of last-match names with {name1}/{name2})", inp, dict(read=k, files=where.get(k, [])), exp))
@@ -184,7 +196,7 @@ def oracle(ctx, case, res, real):
         for fn, recs in real["files"].items():
             if not fn.startswith("dm-"):
                 continue
-            stem, side, _ext = fn.rsplit(".", 2)
+            stem, side = fn[: -len(ext) - 1].rsplit(".", 1)
             n1, n2 = stem[len("dm-"):].split("-", 1)
             for r in recs:
                 swapped = r[0].endswith(" rc")
@@ -200,7 +212,7 @@ def oracle(ctx, case, res, real):
     # multiset equality with the plain output when no trimmed/untrimmed option is used
     if not discard and not ut:
         for side in ("1", "2") if case["paired"] else ("1",):
-            dm = sorted(json.dumps(r) for fn, recs in real["files"].items() if fn.endswith(f".{side}.fastq") for r in recs)
+            dm = sorted(json.dumps(r) for fn, recs in real["files"].items() if fn.endswith(f".{side}.{ext}") for r in recs)
             plain = sorted(json.dumps(r) for fn, recs in pipe.run_real(plain_variant(case))[1]["files"].items() if fn.startswith(f"o{side}") for r in recs)
             if dm != plain:
                 ctx.failures.append(Failure("C15/not-a-partition", "records over all demultiplexed files differ (as a multiset) from the output without demultiplexing",
